@@ -531,6 +531,23 @@ _ADD14 = {
     "C19": " A quarter of the sequential cases obtain the root handler from slogutil.New (explicit writer, or Output unset with os.Stdout replaced by a temporary file during the call; with and without AddTimestamp).",
     "C20": " The base handler may be verbose per host: a handler derived with a chosen host attribute is enabled at every level whatever the base minimum says.",
 }
+_ADD15 = {
+    "C03": " Every name is followed by up to four fold-equal spellings of itself and then by itself again (validity is not invariant under case folding).",
+    "C04": " Every name is decoded three times in a row.",
+    "C06": " Addresses made of runs of equal bytes after a kept prefix.",
+    "C09": " Values reach the cache in buffers of their own; the buffer of the previous Set of a key is overwritten once a later Set has replaced the entry; a palette of repeated contents.",
+    "C10": " The drain kind starts with a Clear storm against single-writer churners (a Get after one's own Set may be nil, never an older value).",
+    "C11": " A near-identical kind compares sets of 0..4097 values that are equal or differ in one element at a chosen sorted position, Equal in both directions.",
+    "C12": " Masks include word-wise canonical ones (every 1/2/4/8-byte word is ones-then-zeros on its own).",
+    "C13": " Long-operand alphabets include the case-bit twins of the ASCII characters next to the letter ranges; one break mode flips bit 5 of a needle character.",
+    "C15": " The caller edits the Limit field of a returned *LimitError; later Reads must still report the reader's limit.",
+    "C16": " URLs are padded so that the redacted text has a length around 64, 128, 256, 512, 1024 or 4096 bytes; half of those are plain URLs that need no escaping.",
+    "C18": " Non-shutdown signals include arbitrary signal numbers (real-time signals, numbers equal to a shutdown signal modulo 32..256) and non-syscall os.Signal values that print like shutdown signals.",
+    "C20": " Handlers also write their body through io.Copy from readers without WriteTo (data together with io.EOF, one-byte reads) and through fmt.Fprint.",
+}
+for _pid, _lt in _ADD15.items():
+    PROPS[_pid]["level_text"] += _lt
+
 for _pid, _lt in _ADD14.items():
     PROPS[_pid]["level_text"] += _lt
 
